@@ -333,3 +333,47 @@ pub fn c11(ctx: &RunCtx) -> Vec<Finding> {
     let _ = out;
     v
 }
+
+/// C15 on a whole generation: rate 0.0 never mutates / rewrites, rate 1.0 always lets the first applicable mutator fire
+pub fn c15(ctx: &RunCtx) -> Vec<Finding> {
+    use crate::units::applicable;
+    use pickle_fuzzer::verif::ValueKind;
+    let mut v = vec![];
+    let rate = ctx.cfg.rate;
+    for (i, st) in ctx.tr.steps.iter().enumerate() {
+        let opname = st.chosen.map(lexer::name).unwrap_or("?");
+        if rate == 0.0 && st.rewrites > 0 {
+            v.push(f("C15", format!("rate0-rewrite:{opname}"), format!("step {i} ({opname}): emitted bytes rewritten at rate 0.0")));
+        }
+        for m in &st.muts {
+            let kind = match m.kind {
+                ValueKind::Int => "int",
+                ValueKind::Long => "long",
+                ValueKind::Float => "float",
+                ValueKind::Str => "string",
+                ValueKind::Bytes => "bytes",
+                ValueKind::MemoIndex => "memo",
+            };
+            if rate == 0.0 {
+                if let Some(who) = &m.fired {
+                    v.push(f("C15", format!("rate0-fired:{who}:{kind}"), format!("step {i} ({opname}): {who} mutated a {kind} value at rate 0.0")));
+                } else if m.output.as_ref().map(|o| *o != m.input).unwrap_or(false) {
+                    v.push(f("C15", format!("rate0-changed:{kind}"), format!("step {i} ({opname}): {kind} value changed at rate 0.0")));
+                }
+            } else if rate == 1.0 {
+                let first = ctx.cfg.mutators.iter().find(|mk| applicable(**mk, kind, ctx.cfg.unsafe_mut, m.input.is_empty()));
+                match (first, &m.fired) {
+                    (Some(mk), Some(who)) if mk.name() == who => {}
+                    (Some(mk), other) => v.push(f(
+                        "C15",
+                        format!("rate1-declined:{}:{kind}", mk.name()),
+                        format!("step {i} ({opname}): {kind} value should be mutated by {} at rate 1.0 but was mutated by {:?}", mk.name(), other),
+                    )),
+                    (None, Some(who)) => v.push(f("C15", format!("rate1-unexpected:{who}:{kind}"), format!("step {i} ({opname}): {who} is not documented to handle {kind} values"))),
+                    (None, None) => {}
+                }
+            }
+        }
+    }
+    v
+}
